@@ -23,4 +23,4 @@ try:
         lines = [l for l in r.stdout.splitlines() if not l.startswith('VIOLATION')]
         print(f'{pr}: rc={r.returncode}', '| ' + ' || '.join(l[:300] for l in lines[:4]))
 finally:
-    subprocess.run(['git', 'checkout', '--', path], cwd='/repo')
+    open(full, 'w').write(s)  # restore the working-tree content (which may hold uncommitted work)
